@@ -58,16 +58,43 @@ type c15Root struct {
 }
 
 type c15Inst struct {
-	s    *Store
-	fsm  *storeFSM
-	dead bool // a command panicked; the instance is not used any further
+	s     *Store
+	fsm   *storeFSM
+	dead  bool  // a command panicked; the instance is not used any further
+	order int32 // map iteration order of this instance (kit.MapOrder*): in force during every call into it
+}
+
+// Map-order adversary (DESIGN C15 iii).  The front end replaces the non-test files of
+// lib/util/lifted/influx/meta and app/ts-meta/meta by copies in which every range over a map with an
+// ordered key type asks kit.MapIter for the order (ovgen/maporder).  The mode is process global, the
+// worker is single threaded (one test goroutine drives all instances; the only goroutine the FSM
+// itself starts, ApplyUpdateReplication's asynchronous leadership transfer, ranges over no map), so
+// every call into an instance is bracketed by in.enter()/leave: the reference instance runs with
+// ascending keys, the second replica and the restored nodes with descending keys.
+var c15Adversary = os.Getenv("VERIF_MAPORDER") == "1"
+
+func c15Order(o int32) int32 {
+	if !c15Adversary {
+		return kit.MapOrderNative
+	}
+	return o
+}
+
+// enter switches the process to the instance's order and returns the function that switches back.
+func (in *c15Inst) enter() func() {
+	old := kit.SetMapOrder(in.order)
+	return func() { kit.SetMapOrder(old) }
 }
 
 var c15Logger *logger2.Logger
 
 var c15ScratchDir string
 
-func c15NewInst() *c15Inst {
+func c15NewInst() *c15Inst { return c15NewInstOrder(kit.MapOrderNative) }
+
+func c15NewInstOrder(order int32) *c15Inst {
+	order = c15Order(order)
+	defer kit.SetMapOrder(kit.SetMapOrder(order))
 	c := config.NewMeta()
 	if c15ScratchDir == "" {
 		c15ScratchDir = kit.Scratch()
@@ -76,7 +103,7 @@ func c15NewInst() *c15Inst {
 	s := NewStore(c, "127.0.0.1:8091", "127.0.0.1:8092", "127.0.0.1:8088")
 	s.Logger = c15Logger
 	s.NetStore = NewMockNetStorage()
-	return &c15Inst{s: s, fsm: (*storeFSM)(s)}
+	return &c15Inst{s: s, fsm: (*storeFSM)(s), order: order}
 }
 
 func c15FirstLine(s string) string {
@@ -92,6 +119,7 @@ func c15FirstLine(s string) string {
 // apply feeds one committed log entry to the FSM; the result is rendered as a string:
 // "" (nil), "ERR: ..." (error), "PANIC: ..." (the apply function panicked).
 func (in *c15Inst) apply(pos int, c *c15Cmd) (ret string) {
+	defer in.enter()()
 	defer func() {
 		if r := recover(); r != nil {
 			in.dead = true
@@ -122,6 +150,7 @@ func (s *c15Sink) Cancel() error { s.cancelled = true; return nil }
 
 // snapshot = what raft does: FSM.Snapshot() (deep copy under the lock) then Persist to a sink.
 func (in *c15Inst) snapshot() (b []byte, err error) {
+	defer in.enter()()
 	defer func() {
 		if r := recover(); r != nil {
 			err = fmt.Errorf("PANIC in Snapshot/Persist: %s", c15FirstLine(fmt.Sprint(r)))
@@ -142,13 +171,16 @@ func (in *c15Inst) snapshot() (b []byte, err error) {
 	return sink.Bytes(), nil
 }
 
-func c15Restore(b []byte) (in *c15Inst, err error) {
+func c15Restore(b []byte) (*c15Inst, error) { return c15RestoreOrder(b, kit.MapOrderNative) }
+
+func c15RestoreOrder(b []byte, order int32) (in *c15Inst, err error) {
 	defer func() {
 		if r := recover(); r != nil {
 			err = fmt.Errorf("PANIC in Restore: %s", c15FirstLine(fmt.Sprint(r)))
 		}
 	}()
-	in = c15NewInst()
+	in = c15NewInstOrder(order)
+	defer in.enter()()
 	if err = in.fsm.Restore(io.NopCloser(bytes.NewReader(b))); err != nil {
 		return nil, err
 	}
@@ -363,6 +395,9 @@ func (in *c15Inst) dumpX(keep bool) (dp *c15Dump, err error) {
 			err = fmt.Errorf("PANIC in Marshal: %s", c15FirstLine(fmt.Sprint(r)))
 		}
 	}()
+	// the dump is the observer, not the system: always taken with ascending keys (the printer sorts the
+	// map-derived lists anyway); what Marshal's own order does to a snapshot is covered by snapshot()/Restore
+	defer kit.SetMapOrder(kit.SetMapOrder(c15Order(kit.MapOrderAscending)))
 	in.s.mu.RLock()
 	pb := in.s.data.Marshal()
 	in.s.mu.RUnlock()
@@ -476,13 +511,38 @@ type c15Result struct {
 	Vios              []c15Vio
 	Traces            int64 // implementation traces compared against the reference trace (C15) / executed (C16)
 	Panicked          bool
+	Opposite          int64 // replica comparisons made under opposite map orders
+	OppositeRestores  int64 // snapshot->restore comparisons with the restored node in the opposite map order
+	OrderDependent    bool  // C16: the descending pass ended in another state / result than the ascending pass
 }
 
 // ---------------------------------------------------------------- C15 oracle
 
-// c15Check executes seed+path on instance A (recording results and a snapshot at every cut position
+// c15Orders: the map iteration order of the reference instance, of the second replica and of the restored
+// nodes.  With the adversary the reference runs ascending, the others descending; a third replica then runs
+// in the runtime's own order (the comparison the check made before the adversary existed).
+type c15Orders struct{ ref, replica, restored int32 }
+
+var c15Opposite = c15Orders{kit.MapOrderAscending, kit.MapOrderDescending, kit.MapOrderDescending}
+var c15AllAscending = c15Orders{kit.MapOrderAscending, kit.MapOrderAscending, kit.MapOrderAscending}
+
+func c15OrderName(o int32) string {
+	switch c15Order(o) {
+	case kit.MapOrderAscending:
+		return "ascending map order"
+	case kit.MapOrderDescending:
+		return "descending map order"
+	}
+	return "runtime map order"
+}
+
+func (e *c15Env) c15Check(root int, path []int, cutFrom int) c15Result {
+	return e.c15CheckOrders(root, path, cutFrom, c15Opposite)
+}
+
+// c15CheckOrders executes seed+path on instance A (recording results and a snapshot at every cut position
 // from cutFrom on), on an independent instance B, and on one restored instance per cut position.
-func (e *c15Env) c15Check(root int, path []int, cutFrom int) (res c15Result) {
+func (e *c15Env) c15CheckOrders(root int, path []int, cutFrom int, ord c15Orders) (res c15Result) {
 	e.setHA(root)
 	cmds := e.full(root, path)
 	n := len(cmds)
@@ -498,7 +558,7 @@ func (e *c15Env) c15Check(root int, path []int, cutFrom int) (res c15Result) {
 	}
 
 	// reference trace A
-	a := c15NewInst()
+	a := c15NewInstOrder(ord.ref)
 	retA := make([]string, n)
 	snaps := make([][]byte, n+1)
 	taints := make([]string, n+1)
@@ -595,14 +655,19 @@ func (e *c15Env) c15Check(root int, path []int, cutFrom int) (res c15Result) {
 		}
 	}
 
-	// (i) second instance, same log
-	{
-		b := c15NewInst()
+	// (i) second instance, same log (opposite map order); with the adversary also a third one in the runtime's order
+	replicas := []int32{ord.replica}
+	if c15Adversary && ord == c15Opposite {
+		replicas = append(replicas, kit.MapOrderNative)
+		res.Opposite++
+	}
+	for _, o := range replicas {
+		b := c15NewInstOrder(o)
 		retB := make([]string, n)
 		for i := 0; i < n && !b.dead; i++ {
 			retB[i] = b.apply(i, cmds[i])
 		}
-		compare("second instance fed the same log", b, retB, 0, "replica_divergence", "replica_result_divergence")
+		compare(fmt.Sprintf("second instance fed the same log (%s; reference: %s)", c15OrderName(o), c15OrderName(ord.ref)), b, retB, 0, "replica_divergence", "replica_result_divergence")
 	}
 
 	// (ii) snapshot at every cut position, restore on a fresh store, apply the rest
@@ -610,8 +675,14 @@ func (e *c15Env) c15Check(root int, path []int, cutFrom int) (res c15Result) {
 		if res.Panicked && cut == n {
 			continue
 		}
-		r, err := c15Restore(snaps[cut])
+		r, err := c15RestoreOrder(snaps[cut], ord.restored)
 		what := fmt.Sprintf("snapshot after %d of %d commands (%d of the seed) -> restore -> rest", cut, n, seedLen)
+		if c15Adversary {
+			what += fmt.Sprintf(" (restored node: %s; reference: %s)", c15OrderName(ord.restored), c15OrderName(ord.ref))
+			if ord == c15Opposite {
+				res.OppositeRestores++
+			}
+		}
 		if err != nil {
 			add("restore_failed", label(), what+": "+err.Error())
 			continue
@@ -750,13 +821,39 @@ func c15LoadVisited(p string) map[string]struct{} {
 
 func (e *c15Env) transition(root int, path []int, cutFrom int) c15Result {
 	if e.prop == "C16" {
-		return e.c16Check(root, path)
+		res := e.c16Check(root, path, kit.MapOrderAscending)
+		if !c15Adversary {
+			return res
+		}
+		// the invariants must hold whatever order the maps are ranged over: second pass with descending keys.
+		// State identity (PreHash/PostHash/Ret) is that of the ascending pass.
+		res2 := e.c16Check(root, path, kit.MapOrderDescending)
+		res.Traces += res2.Traces
+		res.Opposite++
+		if res2.PostHash != res.PostHash || res2.Ret != res.Ret || res2.PreHash != res.PreHash {
+			res.OrderDependent = true // C15's subject
+		}
+		have := map[string]bool{}
+		for _, v := range res.Vios {
+			have[v.Kind+"|"+v.Key] = true
+		}
+		for _, v := range res2.Vios {
+			if !have[v.Kind+"|"+v.Key] {
+				v.Detail = "(only when maps are ranged over in descending key order) " + v.Detail
+				res.Vios = append(res.Vios, v)
+			}
+		}
+		return res
 	}
 	return e.c15Check(root, path, cutFrom)
 }
 
 // c15Probe feeds the same log to many fresh instances (no snapshots): more than one outcome means that
 // apply itself is not a function of the log (hash-map iteration order is the only source in this code).
+//
+// With the map-order adversary the first two instances run with ascending and descending keys: an order
+// dependence that the two extreme orders expose is found deterministically; the remaining instances run in the
+// runtime's order as before.
 func (e *c15Env) probe(root int, path []int) *c15Vio {
 	e.setHA(root)
 	cmds := e.full(root, path)
@@ -765,9 +862,23 @@ func (e *c15Env) probe(root int, path []int) *c15Vio {
 	// 256 instances miss it with probability 1e-15
 	const instances = 256
 	var firstRets []string
+	var first *c15Inst
 	firstHash := ""
+	how := "fresh instances fed the same log (no snapshot involved)"
 	for k := 0; k < instances; k++ {
-		in := c15NewInst()
+		order := kit.MapOrderNative
+		if c15Adversary {
+			switch k {
+			case 0:
+				order = kit.MapOrderAscending
+			case 1:
+				order = kit.MapOrderDescending
+				how = "fresh instances fed the same log (no snapshot involved), one ranging over maps in ascending and one in descending key order"
+			default:
+				how = "fresh instances fed the same log (no snapshot involved), one ranging over maps in ascending key order and one in the runtime's order"
+			}
+		}
+		in := c15NewInstOrder(order)
 		rets := make([]string, len(cmds))
 		for i := 0; i < len(cmds) && !in.dead; i++ {
 			rets[i] = in.apply(i, cmds[i])
@@ -779,19 +890,28 @@ func (e *c15Env) probe(root int, path []int) *c15Vio {
 			}
 		}
 		if k == 0 {
-			firstRets, firstHash = rets, hash
+			firstRets, firstHash, first = rets, hash, in
 			continue
 		}
 		for i := range cmds {
 			if rets[i] != firstRets[i] {
 				rs := []string{strconv.Quote(rets[i]), strconv.Quote(firstRets[i])}
 				sort.Strings(rs)
-				return &c15Vio{"nondeterministic_apply", cmds[i].Name, fmt.Sprintf("fresh instances fed the same log (no snapshot involved): command #%d %s returned %s on one and %s on another",
-					i-seedLen, cmds[i].Name, rs[0], rs[1])}
+				return &c15Vio{"nondeterministic_apply", cmds[i].Name, fmt.Sprintf("%s: command #%d %s returned %s on one and %s on another",
+					how, i-seedLen, cmds[i].Name, rs[0], rs[1])}
 			}
 		}
 		if hash != firstHash {
-			return &c15Vio{"nondeterministic_apply", cmds[len(cmds)-1].Name + " :: catalogue", "fresh instances fed the same log (no snapshot involved) end in different catalogues"}
+			detail := how + " end in different catalogues"
+			if !first.dead && !in.dead {
+				da, ea := first.dump()
+				db, eb := in.dump()
+				if ea == nil && eb == nil {
+					diff, _, _ := c15Diff(da.Lines(), db.Lines(), 12)
+					detail += " (- first, + other):\n  " + strings.Join(diff, "\n  ")
+				}
+			}
+			return &c15Vio{"nondeterministic_apply", cmds[len(cmds)-1].Name + " :: catalogue", detail}
 		}
 	}
 	return nil
@@ -840,6 +960,21 @@ func (e *c15Env) report(root int, path []int, cutFrom int, res c15Result) {
 				root, path, e.names(path), want, differs))
 		}
 	}
+	if e.prop == "C15" && c15Adversary && len(res.Vios) > 0 && !strings.HasPrefix(res.Vios[0].Kind, "nondeterministic_") {
+		// a snapshot->restore mismatch that disappears when the restored node ranges over maps in the reference's
+		// order is an order dependence (of Restore, or of apply on a restored catalogue), not lost snapshot content
+		same := e.c15CheckOrders(root, path, cutFrom, c15AllAscending)
+		still := map[string]bool{}
+		for _, v := range same.Vios {
+			still[v.Kind+"|"+v.Key] = true
+		}
+		for i := range res.Vios {
+			v := &res.Vios[i]
+			if strings.HasPrefix(v.Kind, "snapshot_") && !still[v.Kind+"|"+v.Key] {
+				v.Kind = "restored_node_map_order_divergence"
+			}
+		}
+	}
 	cs := c15Case{Prop: e.prop, Root: root, Path: path, Names: e.names(path)}
 	if dbg := os.Getenv("VERIF_C15_DEBUG"); dbg != "" {
 		if f, err := os.OpenFile(dbg+fmt.Sprintf(".%d", kit.Shard()), os.O_APPEND|os.O_CREATE|os.O_WRONLY, 0o644); err == nil {
@@ -865,6 +1000,13 @@ func c15Run(t *testing.T, prop string) {
 	logger2.SetLogger(zap.NewNop())
 	rep := kit.NewReport(prop)
 	defer rep.Save()
+	defer func() {
+		// dynamic evidence of the adversary: rewritten range statements started over maps with >= 2 entries, per order
+		n := kit.MapOrderRanges()
+		rep.Count("map_ranges_2plus_entries_runtime_order", n[kit.MapOrderNative])
+		rep.Count("map_ranges_2plus_entries_ascending", n[kit.MapOrderAscending])
+		rep.Count("map_ranges_2plus_entries_descending", n[kit.MapOrderDescending])
+	}()
 	e := &c15Env{prop: prop, menu: c15Menu(), roots: c15Roots(), rep: rep}
 	seenNames := map[string]bool{}
 	ncore := 0
@@ -977,6 +1119,8 @@ func c15Run(t *testing.T, prop string) {
 			rep.Eval(1)
 			rep.Count("transitions", int64(len(e.roots[r].Seed)))
 			rep.Count("traces_validated_against_impl", res.Traces)
+			rep.Count("transitions_compared_under_opposite_map_orders", res.Opposite)
+			rep.Count("restores_compared_under_opposite_map_order", res.OppositeRestores)
 			if len(res.Vios) > 0 {
 				e.report(r, nil, 0, res)
 			}
@@ -1006,12 +1150,17 @@ func c15Run(t *testing.T, prop string) {
 			rep.Eval(1)
 			rep.Count("transitions", 1)
 			rep.Count("traces_validated_against_impl", res.Traces)
+			rep.Count("transitions_compared_under_opposite_map_orders", res.Opposite)
+			rep.Count("restores_compared_under_opposite_map_order", res.OppositeRestores)
 			if res.PreHash != "" && res.PreHash != st.Hash && len(res.Vios) == 0 {
 				res.Vios = append(res.Vios, c15Vio{"nondeterministic_prefix", e.menu[j].Name,
 					fmt.Sprintf("replaying the path gives state %s, the frontier recorded %s", res.PreHash, st.Hash)})
 			}
 			if len(res.Vios) > 0 {
 				e.report(st.Root, path, len(e.roots[st.Root].Seed), res)
+			}
+			if res.OrderDependent {
+				rep.Count("transitions_whose_outcome_depends_on_map_order", 1)
 			}
 			if res.Panicked {
 				rep.Count("transitions_panicking_not_taken", 1)
